@@ -2,8 +2,8 @@
 from corr import corr_terms, corr_tvd, corr_ghost, corr_means
 import solversearch as SS
 
-MODULES = ["PyFV.Props.C08"]
-TRANSLATORS = {"T-lim": "python3 harness/translate/tlim.py lean/PyFV/Gen/Limiters.lean"}
+MODULES = ["PyFV.Props.C08", "PyFV.Props.GenEq"]
+TRANSLATORS = {"T-lim": "python3 harness/translate/tlim.py lean/PyFV/Gen/Limiters.lean", "T-num": "python3 harness/translate/tnum.py lean/PyFV/Gen/Stencils.lean"}
 
 
 def corr(rng, tier):
